@@ -24,7 +24,9 @@ listing and LazilyHashedPath values are per-session by design).  The world has o
 the eclass files; a session reads one of them or BOTH, in either order, through the same objects (one Read
 event per package; the criterion is per entry, so e.g. a stale entry must be refused also right after a
 fresh entry naming the same eclass was accepted).  All stamped mtimes carry sub-second parts (os.utime ns=):
-the mtime the caches record - and the spec's mtime - is the whole second.
+the mtime the caches record - and the spec's mtime - is the whole second.  Repository, eclass and cache
+directories are drawn from a pool of awkward but legal names (blanks, leading/trailing blank, unicode,
+punctuation; no tab/newline, which the cache formats use as separators): locations are opaque to the property.
 Carve-outs: an entry recording eclasses but lacking INHERIT ("StripInherit", old cache format) may be
 used or regenerated (the property's criterion says valid, pkgcore documents a refresh); result and
 stored entry are still judged.  mtime validation cannot see an edit that keeps the mtime: the driver
@@ -50,6 +52,7 @@ def cont(cid, inh="", nest=False):
     return dict(cid=cid, inh=inh, nest=bool(nest))
 
 
+PATH_POOL = ["%s with blank", "%s-ünï-cødé", "two  blanks %s x", "%s", "%s+a,b=c@d%%e", "日本 %s", " %s lead-and-trail "]
 PKGS = {"p1": "pkg", "p2": "pkg2"}          # spec package name -> cat/<name>-1
 ORDERS = {"p1": ["p1"], "p2": ["p2"], "p1p2": ["p1", "p2"], "p2p1": ["p2", "p1"]}
 NOPKG = dict(cid=0, inh="", mt=0)
@@ -70,16 +73,22 @@ class Rig:
 
     _n = 0
 
-    def __init__(self, kind, calls):
+    def __init__(self, kind, calls, deco=None):
         from pkgcore.pytest.plugin import EbuildRepo
 
         Rig._n += 1
         self.kind = kind
         self.calls = calls
-        self.root = mktmp(f"c48rig{Rig._n}")
-        self.er = {"m": EbuildRepo(pjoin(self.root, "master"), repo_id="master"),
-                   "o": EbuildRepo(pjoin(self.root, "overlay"), repo_id="overlay", masters=("master",))}
-        self.flatdir = pjoin(self.root, "flatcache")
+        # Repository / cache locations are opaque to the property: draw them from a pool of awkward but legal
+        # directory names (blanks, unicode, shell-ish punctuation; no tab/newline - the cache formats use those
+        # as separators).  The pool is cycled so the first few histories of a run already cover every kind.
+        deco = deco or PATH_POOL[Rig._n % len(PATH_POOL)]
+        self.deco = deco
+        self.root = pjoin(mktmp(f"c48rig{Rig._n}"), deco % "root")
+        os.makedirs(self.root)
+        self.er = {"m": EbuildRepo(pjoin(self.root, deco % "master"), repo_id="master"),
+                   "o": EbuildRepo(pjoin(self.root, deco % "overlay"), repo_id="overlay", masters=("master",))}
+        self.flatdir = pjoin(self.root, deco % "flatcache")
         self.md5 = {}
         self.clock = 0
 
@@ -279,10 +288,10 @@ def view(w, p):
     return dict(eb=w["ebs"][p], ecl=w["ecl"])
 
 
-def run_history(kind, calls, tid, w0, hist, events, gen=None):
+def run_history(kind, calls, tid, w0, hist, events, gen=None, deco=None):
     """Execute a given action list (spec -> code) or let gen(rig, step) pick actions (code -> spec).
     Returns the actions done; every event carries the index k of its action (history[:k+1] reproduces it)."""
-    rig = Rig(kind, calls)
+    rig = Rig(kind, calls, deco)
     try:
         rig.setup(w0)
         done = []
@@ -308,18 +317,18 @@ def run_history(kind, calls, tid, w0, hist, events, gen=None):
                     raise tlc.MachineryError(f"read session names no existing package: {a}")
                 for p, out in rig.session(order):
                     i += 1
-                    ev = dict(tid=tid, i=i, k=k, ev="Read", pkg=p, kind=kind, w=view(rig.world(), p), ens=rig.entries())
+                    ev = dict(tid=tid, i=i, k=k, paths=rig.deco, ev="Read", pkg=p, kind=kind, w=view(rig.world(), p), ens=rig.entries())
                     ev.update(out)
                     events.append(ev)
             else:
                 rig.apply(a)
                 i += 1
                 w = rig.world()
-                events.append(dict(tid=tid, i=i, k=k, ev=a["ev"], pkg=a["pkg"], kind=kind, w=view(w, "p1"), regen=False, failed=False,
+                events.append(dict(tid=tid, i=i, k=k, paths=rig.deco, ev=a["ev"], pkg=a["pkg"], kind=kind, w=view(w, "p1"), regen=False, failed=False,
                                    err="", result=dict(eb=NOCONTENT, ecl=[]), ens=rig.entries()))
         return done
     finally:
-        shutil.rmtree(rig.root, ignore_errors=True)
+        shutil.rmtree(os.path.dirname(rig.root), ignore_errors=True)
 
 
 def random_world(r_):
@@ -395,7 +404,7 @@ def sim_cfg(maxcid, initcid, d):
 def judge(ck, events, meta, label):
     if not events:
         return
-    tr = [{k: v for k, v in e.items() if k != "err"} for e in events]
+    tr = [{k: v for k, v in e.items() if k not in ("err", "paths", "k")} for e in events]
     verdicts = ck.trace("CacheValidity_Trace", tr, label=label, timeout=900)
     by = {(e["tid"], e["i"]): e for e in events}
     for v in verdicts:
@@ -406,7 +415,7 @@ def judge(ck, events, meta, label):
         prev = by.get((e["tid"], e["i"] - 1))
         hist = m["hist"][: e["k"] + 1]
         edits = [a["ev"] for a in hist if a["ev"] != "Read"]
-        ck.violation(v["clause"], dict(kind=e["kind"], origin=m["origin"], pkg=e["pkg"], w0=m["w0"], history=hist,
+        ck.violation(v["clause"], dict(kind=e["kind"], origin=m["origin"], pkg=e["pkg"], paths=e["paths"], w0=m["w0"], history=hist,
                                        last_edit=(edits[-1] if edits else "-"), session=hist[-1]["pkg"] if hist[-1]["ev"] == "Read" else "-",
                                        world=e["w"], entry_before=(prev["ens"][e["pkg"]] if prev and e["pkg"] in prev["ens"] else None),
                                        regen=e["regen"], failed=e["failed"], error=e.get("err", ""), result=e["result"],
@@ -447,7 +456,7 @@ def _run(ck, calls):
     if ck.replay_case:
         d = ck.replay_case["detail"]
         events = []
-        done = run_history(d["kind"], calls, 0, d["w0"], d["history"], events)
+        done = run_history(d["kind"], calls, 0, d["w0"], d["history"], events, deco=d.get("paths"))
         judge(ck, events, {0: dict(origin="replay", w0=d["w0"], hist=done)}, "Trace:replay")
         ck.count()
         ck.sample(d["history"])
